@@ -18,8 +18,8 @@ import traceback
 from .. import REPO, VERIF, repo_check
 from .acc import Acc, jdumps, jloads
 
-EVIDENCE_DIR = os.path.join(VERIF, 'evidence')
-REPLAY_DIR = os.path.join(VERIF, 'replays')
+EVIDENCE_DIR = os.environ.get('PVMON_EVIDENCE_DIR') or os.path.join(VERIF, 'evidence')
+REPLAY_DIR = os.environ.get('PVMON_REPLAY_DIR') or os.path.join(VERIF, 'replays')
 KNOWN = os.path.join(VERIF, 'known_findings.json')
 
 
